@@ -224,7 +224,7 @@ fn main() {
     rep.assume("evaporation in [0,1], positive symmetric distances, ants >= 1, min < max pheromones; ties between equally short best tours make the max-min expectation ambiguous and are then only checked for bounds/symmetry");
     let mut rng = SplitMix64::new(rep.seed).fork(0xC19);
     let mut cells = Vec::new();
-    for k in 0..rep.tier.pick(5_000, 30_000) {
+    for k in 0..rep.tier.pick(5_000, 4_000_000) {
         let bounds = if k % 2 == 0 { None } else { Some(*rng.pick(&[(5.0, 0.01), (1.0, 0.1), (2.0, 1e-6), (100.0, 0.5), (0.3, 0.2)])) };
         cells.push(Params {
             n: 2 + rng.usize(9),
